@@ -36,7 +36,13 @@ IDENT_QUALS = ("locus_tag", "domain_id", "label", "product", "prepeptide", "note
 
 
 def feature_key(feature, sequence):
-    ident = tuple((q, tuple(feature.qualifiers.get(q, ()))) for q in IDENT_QUALS if feature.qualifiers.get(q))
+    def value(qual, text):
+        # identifiers longer than a line of the file are wrapped by the writer and antiSMASH removes the blank again when it reads
+        # them (locus tags, domain ids and the labels derived from them hold no blanks of their own); free text is compared as is
+        if qual in ("locus_tag", "domain_id") or (qual == "label" and feature.type in ("aSDomain", "PFAM_domain", "CDS_motif", "aSModule")):
+            return text.replace(" ", "")
+        return text
+    ident = tuple((q, tuple(value(q, v) for v in feature.qualifiers.get(q, ()))) for q in IDENT_QUALS if feature.qualifiers.get(q))
     return (feature.type, ident, str(feature.location.extract(sequence)))
 
 
